@@ -299,10 +299,12 @@ func serializedSpec(nc *provscheduling.NodeClaim) *v1.NodeClaim {
 func serView(obj *v1.NodeClaim) reqView {
 	reqs := obj.Spec.Requirements
 	return reqView{
-		name:    "serialized",
-		admits:  func(key, val string) bool { return world.AdmitsSerialized(reqs, key, val, true) },
-		absent:  func(key string) bool { return world.AdmitsSerialized(reqs, key, "", false) },
-		hasType: func(name string) bool { return world.AdmitsSerialized(reqs, corev1.LabelInstanceTypeStable, name, true) },
+		name:   "serialized",
+		admits: func(key, val string) bool { return world.AdmitsSerialized(reqs, key, val, true) },
+		absent: func(key string) bool { return world.AdmitsSerialized(reqs, key, "", false) },
+		hasType: func(name string) bool {
+			return world.AdmitsSerialized(reqs, corev1.LabelInstanceTypeStable, name, true)
+		},
 	}
 }
 
@@ -827,7 +829,7 @@ func describe(rs []reach) []string {
 func init() {
 	reg.Register(&reg.Prop{
 		ID: "C17", Level: "exploration", Race: true, RaceIsViolation: false,
-		Rule: "two interleaved case kinds. RESERVED (2 of 3 quick, 5 of 7 thorough): generated world = 1-3 weighted NodePools (shared or own catalogs of 3-8 types) whose capacity-type requirement mostly admits `reserved`, reserved offerings with reservation ids shared across instance types, zones and pools (capacities 0-3, occasionally disagreeing advertisements, some unavailable), 0-1 daemonsets, ReservedCapacity gate on (85%) or off (negative control), + batch of 2-14 pending pods (100m-7 CPU; zone / capacity-type incl. reserved / family / reservation-id selectors, preferred terms, tolerations) scheduled by the real Provisioner.Schedule (strict reserved mode) with parallelism 1/4/8; every case is re-run on an identical fresh world with a different worker count (judged too; outcome equality is a counter only). DRA (the rest): see dra.go. A reserved case is non-trivial when a NodeClaim or a reserved-offering deferral was judged; distinct by (gate, #pinned claims, multi-id pins, narrowed pins, #fully committed ids, zero-capacity ids, #deferred pods, failed pods, #pools, own catalogs, parallelism); DRA cases are distinct by (device kinds, #claims allocated, sharing shape, parallelism).",
+		Rule:  "two interleaved case kinds. RESERVED (2 of 3 quick, 5 of 7 thorough): generated world = 1-3 weighted NodePools (shared or own catalogs of 3-8 types) whose capacity-type requirement mostly admits `reserved`, reserved offerings with reservation ids shared across instance types, zones and pools (capacities 0-3, occasionally disagreeing advertisements, some unavailable), 0-1 daemonsets, ReservedCapacity gate on (85%) or off (negative control), + batch of 2-14 pending pods (100m-7 CPU; zone / capacity-type incl. reserved / family / reservation-id selectors, preferred terms, tolerations) scheduled by the real Provisioner.Schedule (strict reserved mode) with parallelism 1/4/8; every case is re-run on an identical fresh world with a different worker count (judged too; outcome equality is a counter only). DRA (the rest): see dra.go. A reserved case is non-trivial when a NodeClaim or a reserved-offering deferral was judged; distinct by (gate, #pinned claims, multi-id pins, narrowed pins, #fully committed ids, zero-capacity ids, #deferred pods, failed pods, #pools, own catalogs, parallelism); DRA cases are distinct by (device kinds, #claims allocated, sharing shape, parallelism).",
 		Cases: cases, Run: run,
 		RaceFrac: map[string]float64{"quick": 0.34, "thorough": 0.1},
 		MinObserved: map[string]int{"claims_pinned": 40, "reservation_ids_fully_committed": 20, "pods_deferred_reserved": 20, "gate_off_claims_checked": 10,
